@@ -698,15 +698,15 @@ func (t *glTrans) exprInfer(e ast.Expr) (glType, string) {
 			return ty, fmt.Sprintf("(Int.tmod %s %s)", paren(a), paren(b))
 		case token.AND:
 			if ty.kind == "u" {
-				return ty, fmt.Sprintf("((%s).toNat &&& (%s).toNat : Nat)", a, b)
+				return ty, fmt.Sprintf("((%s : Int).toNat &&& (%s : Int).toNat : Nat)", a, b)
 			}
 		case token.OR:
 			if ty.kind == "u" {
-				return ty, fmt.Sprintf("((%s).toNat ||| (%s).toNat : Nat)", a, b)
+				return ty, fmt.Sprintf("((%s : Int).toNat ||| (%s : Int).toNat : Nat)", a, b)
 			}
 		case token.XOR:
 			if ty.kind == "u" {
-				return ty, fmt.Sprintf("((%s).toNat ^^^ (%s).toNat : Nat)", a, b)
+				return ty, fmt.Sprintf("((%s : Int).toNat ^^^ (%s : Int).toNat : Nat)", a, b)
 			}
 		}
 		t.fail(e, "unsupported binary operator %s", x.Op)
